@@ -17,8 +17,8 @@ def _verdict(case, impl):
 
 
 def _equal(case, impl, model):
-    if case.startswith("mfile "):
-        return impl == model    # restore mode's multi-file driver: exact outcome (abort | what was written where)
+    if case.startswith("mfile ") or case.startswith("selfail "):
+        return impl == model    # multi-file driver / refused SELECT: exact outcome (abort|fail | what was written where)
     v = _verdict(case, impl)
     if v != "accept":
         return False
@@ -32,8 +32,8 @@ def _equal(case, impl, model):
 
 
 def _signature(case, impl, model):
-    if case.startswith("mfile "):
-        return "mfile:" + impl.split(" ")[0]
+    if case.startswith("mfile ") or case.startswith("selfail "):
+        return case.split(" ")[0] + ":" + impl.split(" ")[0]
     v = _verdict(case, impl)
     m = re.search(r" P=(\d+) ", case)
     if v.startswith("reject:value:") and case.startswith("chunk ") and m and int(m.group(1)) > 1:
@@ -42,6 +42,8 @@ def _signature(case, impl, model):
 
 
 def _nontrivial(case, impl):
+    if case.startswith("selfail "):
+        return True
     if case.startswith("mfile "):
         return "|" in case      # at least two input files
     # at least two connections carried data commands
@@ -74,7 +76,7 @@ PROPS["C07"] = {
             "batch; 1..5 databases in any order; same key name in several dbs) x mode sync|restore x Parallel 1..8 x target.db -1|0|3|7 x "
             "key_exists x filter.lua x db/key/slot filter lists x optional failing RESTORE x seeded per-connection reply delays; "
             "chunk (scaled build, chunk limit 64 bytes): one hash delivered as 2..4 chunk entries, Parallel 1..4, rewrite|none, DEL held "
-            "back 25 ms. mfile: the real CmdRestore.Main (child process) over 1..4 input files, source.rdb.parallel 1..#files, an optional refused RESTORE in any file. non-trivial = at least two connections carried data commands; distinct by case text",
+            "back 25 ms. mfile: the real CmdRestore.Main (child process) over 1..4 input files, source.rdb.parallel 1..#files, an optional refused RESTORE in any file. selfail: sync/restore worker pools against a target that refuses SELECT of one database (child process). non-trivial = at least two connections carried data commands; distinct by case text",
     "nontrivial": _nontrivial,
     "equal": _equal,
     "signature": _signature,
@@ -83,7 +85,7 @@ PROPS["C07"] = {
     "trusted": ["fake loopback RESP target (go/harness/c07.go): replies OK/1/0, logs commands in one global order",
                 "Go: channel FIFO, sync.WaitGroup, redigo Do/Send/Flush/Receive semantics",
                 "restoreCmds instantiated by Model.concreteCmds for the generated entry kinds (string, lua, big hash, hash chunk)"],
-    "assumptions": ["connections open successfully and SELECT is answered OK (otherwise the code aborts the process)",
+    "assumptions": ["connections open successfully; a refused SELECT ends the run as a failure (selfail cases) and is outside the small-step model",
                     "Parallel >= 1 (with 0 workers the function returns success at once; counter-example in Properties/C07.lean)",
                     "value equality only for parallel = 1 or keys not split over several entries (finding chunked-hash-parallel, D12)"],
 }
